@@ -47,8 +47,10 @@ def model_fs(ctl, ctlstate, text, files):
     for name, state, content in files:
         if not plain(name):
             continue
-        if state in ("ok", "blocked", "occupied"):
+        if state in ("ok", "blocked", "occupied", "linkrel"):
             put(b"S", name, content)
+        if state == "linkrel":
+            put(b"S", b"real-" + name, content)
         elif state == "dir":
             put(b"S", name, b"<dir>")
         elif state == "dirfull":
@@ -135,6 +137,12 @@ def scenarios(chk):
                     out.append((kind, op, ctl, st, fl))
                 if n:
                     out.append((kind, op, ctl, "occupied", [(a, "occupied", c) for a, _, c in fl]))
+                # a referenced file is a symbolic link with a relative target beside it: a COPY delivers the bytes (the file in the
+                # destination is byte-identical to what the name denotes), not a link that dangles there
+                if n and op == "copy":
+                    for pos in range(n):
+                        f2 = list(fl); f2[pos] = (f2[pos][0], "linkrel", f2[pos][2])
+                        out.append((kind, op, ctl, "ok", f2))
                 # the control file is a symbolic link to a file elsewhere: the operation still acts in the directory the
                 # handle was opened in
                 out.append((kind, op, ctl, "symlink", fl))
